@@ -86,15 +86,15 @@ where
         assert!(pre.cs == G_EXPECT[mi].cs && (f.runtime[mi].counter_a, f.runtime[mi].counter_b) == G_COUNTERS[mi],
             "C10: a machine's state and counters change only in its own steps");
         assert!(pre.limit == G_EXPECT[mi].limit,
-            "C07(b): a machine's limit changes only by its own steps and by one unit per own completion reported without state change");
-        assert!(pre.slot == G_EXPECT[mi].slot, "C04: a machine's action slot is reset at the start of a call and otherwise written only by its own steps (or withdrawn with LimitReached)");
+            "C07(b)/C10: a machine's limit changes only by its own steps and by one unit per own completion reported without state change");
+        assert!(pre.slot == G_EXPECT[mi].slot, "C04/C10: a machine's action slot is reset at the start of a call and otherwise written only by its own steps (or withdrawn with LimitReached)");
         // LimitReached is raised exactly when due, immediately
         if G_LR_DUE {
             assert!(ev == EV_LIMIT && mi == G_CUR_ID, "C07(b): LimitReached must be raised for the machine immediately after its completion exhausted the limit");
             G_LR_DUE = false;
             G_LR_SEEN = true;
         } else {
-            assert!(ev != EV_LIMIT, "C07(b): LimitReached is raised only when a machine's own completion, reported without state change, exhausts a limited action's limit");
+            assert!(ev != EV_LIMIT, "C07(b)/C10: LimitReached is raised only when a machine's own completion, reported without state change, exhausts a limited action's limit");
         }
         // signals
         if ev == EV_SIGNAL {
@@ -396,13 +396,13 @@ pub(crate) fn l2_body<const M: usize, const B: usize>(kind: u8, idcase: usize) {
         let sl = slot_of(&f.actions[i]);
         unsafe {
             assert!(sl == G_EXPECT[i].slot,
-                "C04: an action is returned only if a step of that machine scheduled it in this call and it was not withdrawn (slots are reset at the start of a call)");
+                "C04/C10: an action is returned only if a step of that machine scheduled it in this call and it was not withdrawn (slots are reset at the start of a call)");
             assert!(rt.normal_sent == G_NORMAL && rt.padding_sent == G_PAD[i], "C02: after the call the machine's packet counts are the recount of all reports");
             assert!(rt.blocking_duration == VD(G_BLOCK_DUR) && rt.machine_start == VT(ac.start), "C03: after the call every machine is charged the framework's blocked time");
             assert!(rt.current_state == G_EXPECT[i].cs && (rt.counter_a, rt.counter_b) == G_COUNTERS[i],
                 "C10: outside its own steps a machine's state and counters never change");
             assert!(rt.state_limit == G_EXPECT[i].limit,
-                "C07(c): a machine's limit is consumed only by its own completions: one unit each, never for other machines or unknown ids");
+                "C07(c)/C10: a machine's limit is consumed only by its own completions: one unit each, never for other machines or unknown ids");
         }
         if sl.kind != 0 {
             some_slots += 1;
